@@ -160,18 +160,16 @@ class Ctx:
             if f in seen or not os.path.exists(os.path.join(self.coq, f)):
                 continue
             seen.append(f)
-            txt = open(os.path.join(self.coq, f)).read()
-            for m in re.finditer(r"(?:From\s+PM(?:\.[A-Za-z0-9_.]+)?\s+)?Require\s+(?:Import\s+|Export\s+)?([^.]*(?:\.[A-Za-z0-9_]+)*)\s*\.\s", txt):
-                for name in re.split(r"\s+", m.group(1).strip()):
-                    name = name.strip()
-                    if name.startswith("PM."):
-                        todo.append(name[3:].replace(".", "/") + ".v")
-                    else:
-                        # `From PM Require Import Base.Bytes` or `From PM.Base Require Import Bytes`
-                        pre = re.match(r"From\s+PM(\.[A-Za-z0-9_.]+)?\s", m.group(0))
-                        if pre:
-                            p = (pre.group(1) or "")[1:]
-                            todo.append(((p.replace(".", "/") + "/") if p else "") + name.replace(".", "/") + ".v")
+            txt = strip_comments(open(os.path.join(self.coq, f)).read())
+            for sent in re.split(r"\.(?:\s+|$)", txt):
+                m = re.match(r"\s*(?:From\s+([A-Za-z0-9_.]+)\s+)?Require\s+(?:Import\s+|Export\s+)?(.*)$", sent, re.S)
+                if not m:
+                    continue
+                root = m.group(1) or ""
+                for name in m.group(2).split():
+                    full = (root + "." + name) if root else name
+                    if full.startswith("PM."):
+                        todo.append(full[3:].replace(".", "/") + ".v")
         return sorted(seen)
 
     def prove(self, pid=None, extra_targets=()):
